@@ -56,7 +56,7 @@ func main() {
 			"latitude/longitude range over finite float64 values only (NaN and infinities cannot be written as JSON numbers)",
 			"an authorization with identical content but a different valid GCA signature may be treated as a duplicate (200, nothing changes) or as a conflict (non-200, id banned, evidence appended): both accepted and counted",
 			"a valid authorization for a new id that carries the key of a banned (no longer registered) device, and one that carries the key of another registered device, may be accepted or refused; in both cases every other device must stay untouched",
-			"reports in this check stay inside the capacity domain of C02 (capacity < 2^64/135 for reporting devices)",
+			"devices of every capacity report, including capacity 0 (every report over capacity), 2^64-1 and random 64-bit values above 2^64/135; devices created as 'reporting' have a capacity in [1000, 2^50) so that within-capacity reports are frequent",
 			"fault model for the persist step: ENOENT on opening equipment-authorizations.dat (renamed away; no O_CREATE in the server) and ENOSPC on the write (the name is a symlink to /dev/full for the one request); a write that fails with EPERM while open and ftruncate succeed (sealed memfd behind a symlink, content copied back afterwards); EIO, short writes and close errors are not injected",
 			"torn scenarios: RLIMIT_FSIZE (process wide, soft limit, for one request) cuts an authorization append short; a server that then refuses to start is counted (torn.refused_to_start), only a server that comes up is judged (bans established before the restart must hold)",
 			"scale batch: bulk operations (hundreds of authorizations, thousands of injected reports) are checked by status only; the full model comparison runs at check points before and after the restarts",
@@ -1586,7 +1586,9 @@ func (w *world) usableSlot() uint32 {
 func (w *world) opReport(state int) {
 	var cands []*dev
 	for _, c := range w.sorted(state) {
-		if (c.key != refenc.Key{}) && (state != stAuthorized || c.reporting) {
+		// devices of every capacity report (0, 2^64-1 and random 64-bit capacities included: the
+		// model compares power*100 with capacity*135 in big integers, as fix 79f2a8c does in 128 bits)
+		if (c.key != refenc.Key{}) {
 			cands = append(cands, c)
 		}
 	}
